@@ -451,7 +451,10 @@ class JacobianAssembly:
         # Iterate over outputs
         for row_index, function in enumerate(functions):
             column = 0
-            function_jacobian = self.disciplines[function].jac[function]
+            # The discipline computing the function is not differentiated
+            # when the function does not depend on the variables:
+            # its Jacobian is then missing and the blocks are null.
+            function_jacobian = self.disciplines[function].jac.get(function, {})
             # Iterate over inputs
             for column_index, variable in enumerate(variables):
                 jacobian = function_jacobian.get(variable, None)
